@@ -76,6 +76,9 @@ def answer (ws : List String) (dummy : IO.Ref Bool) : Option String := do
     | "lit" => pure (match Text.parseLit L text with | some l => "ok " ++ showLit l | none => "err")
     | "obj" => pure (match Text.parseObject L text with | some x => "ok " ++ showObj x | none => "err")
     | "triple" => pure (match Text.parseTriple L text with | some t => "ok " ++ showTriple t | none => "err")
+    | "litb" => pure (match Text.parseLitBounded L 3 text with | some l => "ok " ++ showLit l | none => "err")
+    | "objb" => pure (match Text.parseObjectWith (Text.parseLitBounded L 3) L text with | some x => "ok " ++ showObj x | none => "err")
+    | "tripleb" => pure (match Text.parseTripleWith (Text.parseLitBounded L 3) L text with | some t => "ok " ++ showTriple t | none => "err")
     | "graph" =>
       let (ts, n, stopped) := readLines L (splitLines text)
       pure s!"{if stopped then "err" else "ok"} n={n} {";".intercalate (ts.map showTriple)}"
